@@ -32,6 +32,14 @@ type PBad struct {
 	P int
 	C chan int
 }
+// PNamed names its own type, depending on its value (an envelope type).
+type PNamed struct {
+	P    int    `json:"p"`
+	Kind string `json:"kind"`
+}
+
+func (e PNamed) EventTypeName() string { return "named." + e.Kind }
+
 type pKey struct{}
 
 type pMeta struct {
@@ -150,6 +158,8 @@ func persistCase(order []string, kinds []string, storeKind, dir string) ([][]byt
 					ok = ok && v.P == cur.p
 				case PBad:
 					ok = ok && v.P == cur.p
+				case PNamed:
+					ok = ok && v.P == cur.p
 				default:
 					ok = false
 				}
@@ -177,14 +187,23 @@ func persistCase(order []string, kinds []string, storeKind, dir string) ([][]byt
 		for _, e := range evs {
 			var doc PEvent
 			if json.Unmarshal(e.Data, &doc) == nil && doc.P == cur.p {
-				want, _ := json.Marshal(PEvent{P: cur.p, Note: "n"})
-				found = e.Type == eb.EventType(PEvent{}) && string(e.Data) == string(want)
+				if cur.p%3 == 0 { // published as PNamed: the record carries the name the value gives itself
+					want, _ := json.Marshal(PNamed{P: cur.p, Kind: namedKind(cur.p)})
+					found = e.Type == "named."+namedKind(cur.p) && string(e.Data) == string(want)
+				} else {
+					want, _ := json.Marshal(PEvent{P: cur.p, Note: "n"})
+					found = e.Type == "checks.PEvent" && string(e.Data) == string(want)
+				}
 			}
 		}
 		return len(evs), found
 	}
 	for i := 0; i < nh; i++ {
 		eb.Subscribe(bus, func(e PEvent) {
+			n, saw := count()
+			emit(map[string]any{"e": "handler", "p": e.P, "saw": saw, "n": n})
+		})
+		eb.Subscribe(bus, func(e PNamed) {
 			n, saw := count()
 			emit(map[string]any{"e": "handler", "p": e.P, "saw": saw, "n": n})
 		})
@@ -200,6 +219,8 @@ func persistCase(order []string, kinds []string, storeKind, dir string) ([][]byt
 		ctx := context.WithValue(context.Background(), pKey{}, cur)
 		if k == "unenc" {
 			eb.PublishContext(bus, ctx, PBad{P: cur.p, C: make(chan int)})
+		} else if cur.p%3 == 0 {
+			eb.PublishContext(bus, ctx, PNamed{P: cur.p, Kind: namedKind(cur.p)})
 		} else {
 			eb.PublishContext(bus, ctx, PEvent{P: cur.p, Note: "n"})
 		}
@@ -208,6 +229,8 @@ func persistCase(order []string, kinds []string, storeKind, dir string) ([][]byt
 	}
 	return lines, nil
 }
+
+func namedKind(p int) string { return []string{"created", "shipped", "cancelled"}[(p/3)%3] }
 
 func permutations(xs []string) [][]string {
 	if len(xs) <= 1 {
@@ -251,6 +274,7 @@ func persistRuns(r *core.Run, name string, nRandom int, obsOnly bool) {
 	}
 	orders = append(orders, []string{"beforeCtx", "errh"}, []string{"obs"}) // buses without a store
 	var segs []core.Segment
+	hangs := 0
 	for i, order := range orders {
 		has := map[string]bool{}
 		for _, o := range order {
@@ -259,7 +283,7 @@ func persistRuns(r *core.Run, name string, nRandom int, obsOnly bool) {
 		if obsOnly && !has["obs"] {
 			continue
 		}
-		n := 2 + rnd.IntN(4)
+		n := 2 + rnd.IntN(6)
 		var kinds []string
 		for k := 0; k < n; k++ {
 			ks := []string{"ok", "ok", "unenc", "apperr"}
@@ -275,12 +299,36 @@ func persistRuns(r *core.Run, name string, nRandom int, obsOnly bool) {
 		if i%4 == 1 {
 			sk = "sqlite-file"
 		}
-		lines, err := persistCase(order, kinds, sk, r.Work)
+		label := fmt.Sprintf("%s opts=%s kinds=%s", sk, strings.Join(order, ","), strings.Join(kinds, ","))
+		type res struct {
+			lines [][]byte
+			err   error
+		}
+		ch := make(chan res, 1)
+		go func() {
+			l, e := persistCase(order, kinds, sk, r.Work)
+			ch <- res{l, e}
+		}()
+		var lines [][]byte
+		var err error
+		select {
+		case x := <-ch:
+			lines, err = x.lines, x.err
+		case <-time.After(10 * time.Second):
+			art, _ := json.MarshalIndent(map[string]any{"case": label, "goroutines": core.AllStacks()}, "", " ")
+			p := r.SaveReplay(fmt.Sprintf("%s-persist-hang-%d.json", name, i), art)
+			r.Violate(core.Violation{Clause: "publish-returns", Scenario: "publish blocks after a persistence failure pattern " + hangShape(kinds), Replay: p,
+				Detail: "a publish on a persistent bus did not return within 10 s (" + label + ")"})
+			hangs++
+			if hangs > 2 {
+				return
+			}
+			continue
+		}
 		if err != nil {
 			r.Infra("persist case: %v", err)
 			return
 		}
-		label := fmt.Sprintf("%s opts=%s kinds=%s", sk, strings.Join(order, ","), strings.Join(kinds, ","))
 		segs = append(segs, core.Segment{Label: label, Lines: lines, Meta: order})
 		r.Case(label)
 	}
@@ -303,6 +351,15 @@ func persistRuns(r *core.Run, name string, nRandom int, obsOnly bool) {
 			Detail: fmt.Sprintf("publishes on a persistent bus (%s) are not accepted by PersistTrace.tla at line %d: %s (before: %s)", rej.Seg.Label, rej.Line, rej.Text, strings.Join(rej.Prev, " "))})
 		return nil
 	})
+}
+
+func hangShape(kinds []string) string {
+	for _, k := range kinds {
+		if k != "ok" {
+			return "(first failure: " + k + ")"
+		}
+	}
+	return "(no failure)"
 }
 
 // optionShape abstracts an option order to what matters for persistence: is the context hook given after the store?
